@@ -17,7 +17,7 @@ def columns(seed, tier):
         fm = m or "yescrypt"
         prefix = gen.TAG[m] if m else None
         mn = facts.MIN_NRBYTES[fm]
-        nrs = sorted(set([-2147483648, -1, 0, max(mn - 1, 0), mn, 16, 17, 64]))
+        nrs = sorted(set([-2147483648, -1, 0, max(mn - 1, 0), mn, 16, 17, 64, 65, 100, 124, 200, 256]))
         counts = facts.interesting_counts(fm)
         if tier == "quick":
             # every class kept: 0, min, default, interior, power of ten, max
@@ -33,7 +33,8 @@ def judge_column(acc, col, rows, lines):
     m, prefix, count, nr, pat = col
     fm = m or "yescrypt"
     name = m or "NULL"
-    ref = rows[0]          # size 192
+    ref = rows[0]          # size 192 (4096 when nrbytes > 64)
+    refsz = 192 if nr <= 64 else 4096
     what = "%s/count=%d/nrbytes=%d" % (name, count, nr)
 
     def viol(kind, detail, i):
@@ -57,7 +58,7 @@ def judge_column(acc, col, rows, lines):
         # acceptance of out-of-range counts is C11's business; here only shape
         pass
     first_ok = None
-    for i, (size, r) in enumerate(zip([192] + SIZES, rows)):
+    for i, (size, r) in enumerate(zip([refsz] + SIZES, rows)):
         if i == 0:
             continue
         acc.count("evaluations")
@@ -85,7 +86,7 @@ def judge_column(acc, col, rows, lines):
                 viol("bad-chars", "size=%d result=%r" % (size, s), i)
             if not ref_ok:
                 viol("success-where-192-fails", "size=%d result=%r" % (size, s), i)
-            elif size >= 192 and s != ref_s:
+            elif size >= refsz and s != ref_s:
                 viol("differs-from-192", "size=%d %r vs %r" % (size, s, ref_s), i)
             elif not ref_s.startswith(s):
                 viol("not-a-leading-part", "size=%d %r vs %r" % (size, s, ref_s), i)
@@ -96,9 +97,9 @@ def judge_column(acc, col, rows, lines):
             acc.count("failures")
             if e not in (rt.ERANGE, rt.EINVAL):
                 viol("errno", "size=%d errno=%d" % (size, e), i)
-            if ref_ok and size >= 192:
+            if ref_ok and size >= refsz:
                 viol("fail-above-192", "size=%d errno=%d" % (size, e), i)
-            if ref_ok and e != rt.ERANGE and size < 192:
+            if ref_ok and e != rt.ERANGE and size < refsz:
                 viol("errno-not-erange", "size=%d: same arguments succeed at 192 but errno=%d" % (size, e), i)
             if first_ok is not None:
                 viol("non-monotone", "success at size %d, failure at %d" % (first_ok, size), i)
@@ -115,7 +116,9 @@ def do_chunk(chunk):
     for col in chunk:
         m, prefix, count, nr, pat = col
         rb = facts.rbytes_pattern(pat, nr, seed=count)
-        lines = [rt.gensalt_line("rn", prefix, count, rb, nr, sz) for sz in [192] + SIZES]
+        # reference: the documented size; for more than 64 random bytes (where 192 need not suffice) a large buffer
+        refsz = 192 if nr <= 64 else 4096
+        lines = [rt.gensalt_line("rn", prefix, count, rb, nr, sz) for sz in [refsz] + SIZES]
         rows = rt.run_resilient(w, [], lines, max_deaths=8)
         judge_column(acc, col, rows, lines)
         if len(acc.samples) < 3 and rows and isinstance(rows[0], dict):
